@@ -76,4 +76,70 @@ example : clientAccepts false .ecdhe ⟨true, true, true⟩ = true := rfl
 example : serverAccepts .requireAndVerify ⟨true, true, true⟩ = true := rfl
 example : requiresClientCert .requireAny = true := rfl
 
+/-! ## resumption -/
+
+/-- The guard of `loadSession`: a VERIFYING configuration offers a cached session only if that session carries verified
+    chains, its leaf is not expired now and lists the configured ServerName. -/
+theorem resumption_needs_verified_chains (s : Session) (notExpired named : Bool)
+    (h : sessionUsable false s notExpired named = true) :
+    s.hasVerifiedChains = true ∧ notExpired = true ∧ named = true := by
+  cases s with
+  | mk v => cases v <;> cases notExpired <;> cases named <;> simp_all [sessionUsable]
+
+/-- A session made against a server whose chain did not verify for the configuration that made it (e.g. under
+    InsecureSkipVerify) is never used by a verifying configuration: the second connection is decided exactly like a
+    fresh one. -/
+theorem unverified_session_not_resumed (kex : Kex) (first second : ChainFacts) (c : ServerCred)
+    (h : (first.trusted && first.fresh) = false) :
+    clientAcceptsWithCache false kex (some (sessionOf first)) second c = clientAccepts false kex c := by
+  simp [clientAcceptsWithCache, sessionOf, sessionUsable, h]
+
+/-- Soundness of client-side resumption for configurations that trust the same roots: whatever configuration (verifying
+    or not, other name, other time) filled the cache, a verifying configuration completes the second connection only if
+    the server's chain verifies for ITS roots, time and name.
+    -- FULL: the same without `hroots`.  It does not hold for the code as it is: a session verified under OTHER roots is
+    -- resumed (see `differently_rooted_session_is_resumed` below; reported as a finding, same behaviour as crypto/tls
+    -- before the fix of CVE-2025-68121). -/
+theorem resumed_session_sound_same_roots_partial (kex : Kex) (cached : Option ChainFacts) (second : ChainFacts)
+    (km si : Bool) (hroots : ∀ f, cached = some f → f.trusted = true → second.trusted = true)
+    (h : clientAcceptsWithCache false kex (cached.map sessionOf) second ⟨second.chainOK, km, si⟩ = true) :
+    second.chainOK = true := by
+  cases cached with
+  | none =>
+    have := (client_completes_implies kex _ (by simpa [clientAcceptsWithCache] using h)).1
+    simpa using this
+  | some f =>
+    have hr := hroots f rfl
+    cases f with
+    | mk t fr n =>
+      cases second with
+      | mk t2 f2 n2 =>
+        cases kex <;> cases t <;> cases fr <;> cases t2 <;> cases f2 <;> cases n2 <;> cases km <;> cases si <;>
+          simp_all [clientAcceptsWithCache, sessionOf, sessionUsable, clientAccepts, possession, ChainFacts.chainOK]
+
+/-- the code as it is: a session whose chain verified under the FIRST configuration's roots is resumed by a verifying
+    configuration whose own roots do not contain the issuer (finding F-C27-resume-other-roots) -/
+theorem differently_rooted_session_is_resumed (kex : Kex) :
+    clientAcceptsWithCache false kex (some (sessionOf ⟨true, true, true⟩)) ⟨false, true, true⟩ ⟨false, true, true⟩ = true := by
+  cases kex <;> rfl
+
+/-- Server side: a resumed session never bypasses client-certificate verification — with VerifyClientCertIfGiven /
+    RequireAndVerifyClientCert a ticket carrying client certificates is accepted only if they verify under the CURRENT
+    configuration. -/
+theorem server_resume_reverifies (m : Mode) (chainOKnow : Bool) (o : ClientOffer)
+    (hm : m = .verifyIfGiven ∨ m = .requireAndVerify)
+    (h : serverAcceptsWithTicket m (some true) chainOKnow o = true) : chainOKnow = true := by
+  rcases hm with rfl | rfl <;> cases chainOKnow <;>
+    simp_all [serverAcceptsWithTicket, serverResumes, serverAccepts, requiresClientCert, Mode.toNat]
+
+/-- … and a ticket without client certificates is not resumed by a server that requires them: the full handshake
+    decides. -/
+theorem server_resume_required_cert (m : Mode) (chainOKnow : Bool) (o : ClientOffer) (hreq : requiresClientCert m = true) :
+    serverAcceptsWithTicket m (some false) chainOKnow o = serverAccepts m o := by
+  cases m <;> simp_all [serverAcceptsWithTicket, serverResumes, requiresClientCert]
+
+example : sessionUsable false ⟨true⟩ true true = true := rfl
+example : clientAcceptsWithCache false .tls13 (some (sessionOf ⟨true, true, false⟩)) ⟨true, true, true⟩ ⟨true, true, true⟩ = true := rfl
+example : serverAcceptsWithTicket .requireAndVerify (some true) true ⟨true, true, true⟩ = true := rfl
+
 end ZV.C27
